@@ -32,6 +32,8 @@ CheckOf(e) ==
     [] e.e = "IncRun" -> IF \A i \in DOMAIN e.srcs : e.srcs[i] \in DOMAIN Cfg.srcs
                          THEN IncRunCheck(e.metric, RunSrcs(e), e.amts) ELSE "harness.source"
     [] e.e = "Tick" -> TickCheck(e.dt)
+    [] e.e = "PassBegin" -> PassBeginCheck
+    [] e.e = "PassEnd" -> PassEndCheck
     [] e.e = "Agg" -> AggCheck(e.metric, e.sel, e.key, e.total, e.series, e.cnt, e.pcts, e.lo, e.hi)
     [] e.e = "AggDone" -> AggDoneCheck(e.metric, e.sel, e.nkeys)
     [] OTHER -> "harness.unknownEvent"
@@ -42,6 +44,8 @@ UpdOf(e) ==
     [] e.e = "Sample" -> SampleUpd(e.metric, Src(e.src), e.v)
     [] e.e = "IncRun" -> IncRunUpd(e.metric, RunSrcs(e), e.amts)
     [] e.e = "Tick" -> AggUpd
+    [] e.e = "PassBegin" -> PassBeginUpd
+    [] e.e = "PassEnd" -> PassEndUpd
     [] e.e = "Agg" -> AggUpd
     [] e.e = "AggDone" -> AggUpd
 
